@@ -47,8 +47,9 @@ void htp_connp_clear_error(htp_connp_t *connp) {
 void htp_connp_req_close(htp_connp_t *connp, const htp_time_t *timestamp) {
     if (connp == NULL) return;
     
-    // Update internal flags
-    if (connp->in_status != HTP_STREAM_ERROR)
+    // Update internal flags (a stream that failed or was
+    // stopped by a callback stays that way)
+    if ((connp->in_status != HTP_STREAM_ERROR) && (connp->in_status != HTP_STREAM_STOP))
         connp->in_status = HTP_STREAM_CLOSED;
 
     // Call the parsers one last time, which will allow them
@@ -62,10 +63,11 @@ void htp_connp_close(htp_connp_t *connp, const htp_time_t *timestamp) {
     // Close the underlying connection.
     htp_conn_close(connp->conn, timestamp);
 
-    // Update internal flags
-    if (connp->in_status != HTP_STREAM_ERROR)
+    // Update internal flags (a stream that failed or was
+    // stopped by a callback stays that way)
+    if ((connp->in_status != HTP_STREAM_ERROR) && (connp->in_status != HTP_STREAM_STOP))
         connp->in_status = HTP_STREAM_CLOSED;
-    if (connp->out_status != HTP_STREAM_ERROR)
+    if ((connp->out_status != HTP_STREAM_ERROR) && (connp->out_status != HTP_STREAM_STOP))
         connp->out_status = HTP_STREAM_CLOSED;
 
     // Call the parsers one last time, which will allow them
